@@ -11,23 +11,28 @@
 (* Begin, Create(o), StartScenario(s), StartBehavior(b), Override(s,o,p,v),          *)
 (* SimWrite(o,p,v), StopScenario(s) (children first, revert ledger), and the fault   *)
 (* disjunct Fail -- enabled in EVERY state of a running simulation -- followed by    *)
-(* the cleanup of the `finally` clause in its real order: Destroy, DisableProxies,   *)
-(* StopBehaviors, StopScenariosQuietly, EndSimulation.                               *)
+(* the cleanup of the `finally` clause: Destroy, StopBehaviors, the quiet stops of     *)
+(* the scenarios still running (each reverting its ledger), DisableProxies,           *)
+(* EndSimulation.  SimWrite is any run-time write to a property of a scene object:    *)
+(* the simulator's updates of the dynamic properties and assignments made by          *)
+(* behaviours/monitors/compose blocks to any property, overridable ones included.      *)
 (*                                                                                *)
 (* Named as-implemented deviations (each switched by a constant, default FALSE):    *)
 (*   LedgerFirstOnly -- DynamicScenario._override keeps only the old values of the   *)
 (*     first override of an object, so a property overridden later is not reverted;  *)
 (*   FlagBeforeGuard -- Invocable._start marks the scenario running before its       *)
-(*     preconditions are checked and a failing check does not clear the mark.        *)
-(* With both FALSE every invariant holds; with either TRUE TLC produces the          *)
+(*     preconditions are checked and a failing check does not clear the mark;        *)
+(*   ProxiesBeforeStops -- the finally clause drops the proxies BEFORE it stops the    *)
+(*     scenarios, so their reverts write run-time values into the scene's own objects. *)
+(* With all FALSE every invariant holds; with any one TRUE TLC produces the           *)
 (* counterexample that the conformance harness then looks for in the real code.      *)
 EXTENDS Integers, Sequences, FiniteSets, TLC
 
 CONSTANTS Obj, Prop, DynProp, Scen, Beh, Parent,  \* Parent[s] = enclosing scenario (0 for the top one);
                                                     \* DynProp: dynamic properties (simulator-written, not overridable)
-          LedgerFirstOnly, FlagBeforeGuard, MaxOps
+          LedgerFirstOnly, FlagBeforeGuard, ProxiesBeforeStops, MaxOps
 
-VARIABLES pc,        \* "idle" | "setup" | "run" | "c1".."c5" (cleanup stages)
+VARIABLES pc,        \* "idle" | "setup" | "run" | "c1" (in finally) | "c2".."c4" (three cleanup steps) | "c5"
           sim,       \* a simulation is current (veneer.currentSimulation)
           proxied,   \* objects that currently have a dynamic proxy
           running,   \* sequence of running scenarios (veneer.runningScenarios), oldest first
@@ -50,6 +55,13 @@ Top == CHOOSE s \in Scen : Parent[s] = 0
 Init == /\ pc = "idle" /\ sim = FALSE /\ proxied = {} /\ running = <<>> /\ flagged = {} /\ brun = {}
         /\ ledger = [s \in Scen |-> Empty] /\ shadow = [s \in Scen |-> Empty] /\ seen = [s \in Scen |-> {}]
         /\ cur = [x \in OP |-> 0] /\ orig = [x \in OP |-> 0] /\ nops = 0 /\ outcome = "none"
+
+\* order of the three cleanup steps that follow Destroy
+Order == IF ProxiesBeforeStops THEN <<"unproxy", "behaviors", "scenarios">>
+                               ELSE <<"behaviors", "scenarios", "unproxy">>
+Stages == <<"c2", "c3", "c4", "c5">>
+StageOf(what) == Stages[CHOOSE i \in 1..3 : Order[i] = what]
+NextOf(what) == Stages[(CHOOSE i \in 1..3 : Order[i] = what) + 1]
 
 IsRunning(s) == \E i \in 1..Len(running) : running[i] = s
 Innermost == running[Len(running)]
@@ -102,16 +114,16 @@ Override(s, o, p, v) ==
   /\ nops' = nops + 1
   /\ UNCHANGED <<pc, sim, proxied, running, flagged, brun, outcome>>
 
-\* the simulator updates a dynamic property
+\* a run-time write: the simulator updating a dynamic property, or user code assigning to any property
 SimWrite(o, p, v) ==
-  /\ pc = "run" /\ nops < MaxOps /\ p \in DynProp
+  /\ pc = "run" /\ nops < MaxOps
   /\ Write(<<o, p>>, v) /\ nops' = nops + 1
   /\ UNCHANGED <<pc, sim, proxied, running, flagged, brun, ledger, shadow, seen, outcome>>
 
 \* stopping the innermost scenario: revert its ledger, clear its mark
 Revert(s) == [x \in OP |-> IF x \in DOMAIN ledger[s] THEN ledger[s][x] ELSE cur[x]]
 StopInnermost ==
-  /\ pc \in {"run", "c4"} /\ running # <<>>
+  /\ pc \in {"run", StageOf("scenarios")} /\ running # <<>>
   /\ LET s == Innermost nc == Revert(s) IN
        /\ cur' = nc
        /\ orig' = [x \in OP |-> IF x[1] \in proxied THEN orig[x] ELSE nc[x]]
@@ -130,15 +142,15 @@ Fail == /\ pc \in {"setup", "run"} /\ sim
 Finish == /\ pc = "run" /\ pc' = "c1" /\ outcome' = "ok"
           /\ UNCHANGED <<sim, proxied, running, flagged, brun, ledger, shadow, seen, cur, orig, nops>>
 
-\* the finally clause of Simulation.__init__, in its real order
+\* the finally clause of Simulation.__init__
 Destroy == /\ pc = "c1" /\ pc' = "c2"
            /\ UNCHANGED <<sim, proxied, running, flagged, brun, ledger, shadow, seen, cur, orig, nops, outcome>>
-DisableProxies == /\ pc = "c2" /\ proxied' = {} /\ pc' = "c3"
+DisableProxies == /\ pc = StageOf("unproxy") /\ proxied' = {} /\ pc' = NextOf("unproxy")
                   /\ cur' = orig     \* reads now see the scene's own objects again
                   /\ UNCHANGED <<sim, running, flagged, brun, ledger, shadow, seen, orig, nops, outcome>>
-StopBehaviors == /\ pc = "c3" /\ brun' = {} /\ pc' = "c4"
+StopBehaviors == /\ pc = StageOf("behaviors") /\ brun' = {} /\ pc' = NextOf("behaviors")
                  /\ UNCHANGED <<sim, proxied, running, flagged, ledger, shadow, seen, cur, orig, nops, outcome>>
-ScenariosStopped == /\ pc = "c4" /\ running = <<>> /\ pc' = "c5"
+ScenariosStopped == /\ pc = StageOf("scenarios") /\ running = <<>> /\ pc' = NextOf("scenarios")
                     /\ UNCHANGED <<sim, proxied, running, flagged, brun, ledger, shadow, seen, cur, orig, nops, outcome>>
 EndSimulation == /\ pc = "c5" /\ sim' = FALSE /\ pc' = "idle"
                  /\ UNCHANGED <<proxied, running, flagged, brun, ledger, shadow, seen, cur, orig, nops, outcome>>
@@ -157,8 +169,8 @@ Quiescent == (pc = "idle") =>
    /\ ~sim /\ proxied = {} /\ running = <<>> /\ flagged = {} /\ brun = {}
    /\ ledger[Top] = Empty      \* (the top-level scenario object persists; sub-scenario objects are per-invocation)
    /\ orig = [x \in OP |-> 0]
-\* the scene's own objects are never written while a simulation runs
-SceneUntouched == (pc \in {"setup", "run", "c1", "c2", "c3"}) => orig = [x \in OP |-> 0]
+\* the scene's own objects are never written, in any state of any run
+SceneUntouched == orig = [x \in OP |-> 0]
 \* when a scenario stops every property it overrode reads as before its first override
 RevertOnStop == [][\A s \in Scen :
                      (IsRunning(s) /\ ~(\E i \in 1..Len(running') : running'[i] = s) /\ pc = "run")
